@@ -1,7 +1,7 @@
 from amaranth import *
 from amaranth.utils import *
 import amaranth.lib.memory as memory
-from amaranth_types import ShapeLike
+from amaranth_types import ShapeLike, ValueLike
 import amaranth_types.memory as amemory
 
 from transactron.utils.amaranth_ext.elaboratables import OneHotMux
@@ -121,25 +121,32 @@ class MemoryBank(Elaboratable):
         overflow_next = [Signal(self.shape) for _ in range(self.reads_ports)]
         overflow_addr = [Signal(range(self.depth), reset_less=True) for _ in range(self.reads_ports)]
 
+        def written(j: int, old_data: ValueLike):
+            # value of a row holding old_data after the write on port j: only the enabled granules change
+            en = write_port[j].en
+            mask = Cat(bit.replicate(len(Value.cast(write_port[j].data)) // len(en)) for bit in en)
+            return (Value.cast(write_port[j].data) & mask) | (Value.cast(old_data) & ~mask)
+
         for i in range(self.reads_ports):
             if self.read_on_resp:
                 read_output_addr_match = [
-                    write_port[j].en & (write_port[j].addr == read_output_addr[i]) for j in range(self.writes_ports)
+                    write_port[j].en.any() & (write_port[j].addr == read_output_addr[i])
+                    for j in range(self.writes_ports)
                 ]
                 overflow_addr_match = [
-                    write_port[j].en & (write_port[j].addr == overflow_addr[i]) for j in range(self.writes_ports)
+                    write_port[j].en.any() & (write_port[j].addr == overflow_addr[i]) for j in range(self.writes_ports)
                 ]
                 m.d.comb += read_output_next[i].eq(
                     OneHotMux.create(
                         m,
-                        [(read_output_addr_match[j], write_port[j].data) for j in range(self.writes_ports)],
+                        [(read_output_addr_match[j], written(j, read_port[i].data)) for j in range(self.writes_ports)],
                         read_port[i].data,
                     )
                 )
                 m.d.comb += overflow_next[i].eq(
                     OneHotMux.create(
                         m,
-                        [(overflow_addr_match[j], write_port[j].data) for j in range(self.writes_ports)],
+                        [(overflow_addr_match[j], written(j, overflow_data[i])) for j in range(self.writes_ports)],
                         overflow_data[i],
                     )
                 )
